@@ -82,13 +82,28 @@ def handleGc (full : Bool) (inputs zo consts steps : String) : String :=
     match gcPass prog with
     | none => "gc-panic"
     | some out =>
-      let head := s!"steps={stepsStr out}"
+      let head := s!"wf={if wfSteps prog then 1 else 0};steps={stepsStr out}"
       if !full then head else
       let (st, tr) := streamTrace ins cs out zk ok
       if st.panic then head ++ ";alloc-panic" else
       let circ := ",".intercalate (tr.circs.map fun (i, m) => s!"{i}:{m}")
       head ++ s!";ret={natsStr tr.retIds};circ={circ}"
   | _, _, _, _ => "bad-op"
+
+/-- `gcs <steps>`: `Program.GC` (defineBeforeUse + gc insertion) on a step list
+that the harness has scrambled (definitions moved behind their first use).
+Result: is the reordered list a permutation of the input, is it well formed,
+and the GC'd list. -/
+def handleGcs (steps : String) : String :=
+  match parseSteps steps with
+  | some prog =>
+    let re := defineBeforeUse prog
+    let sortS := fun (l : List Step) => (l.map stepStr).mergeSort (fun a b => decide (a ≤ b))
+    let perm := sortS re == sortS prog
+    match gcPass prog with
+    | none => "gc-panic"
+    | some out => s!"perm={if perm then 1 else 0};wf={if wfSteps re then 1 else 0};steps={stepsStr out}"
+  | none => "bad-op"
 
 /-! ### `codec`: Streaming.Garble bytes -/
 
@@ -166,6 +181,7 @@ def handle (args : List String) : String :=
   match args with
   | ["gc", inputs, zo, consts, steps] => handleGc true inputs zo consts steps
   | ["gco", inputs, zo, consts, steps] => handleGc false inputs zo consts steps
+  | ["gcs", steps] => handleGcs steps
   | ["skip"] => "unsupported"
   | "codec" :: key :: tape :: pids :: x :: specs => handleCodec key tape pids x specs
   | _ => "bad-op"
